@@ -93,6 +93,8 @@ def _i(x):
         return z3.IntVal(int(x))
     if isinstance(x, int):
         return z3.IntVal(x)
+    if hasattr(x, "__index__") and not isinstance(x, (SInt, float)) and type(x).__module__ == "numpy":
+        return z3.IntVal(int(x))
     if z3.is_int(x):
         return x
     return None
